@@ -73,3 +73,7 @@ package driver
 //@   props C01
 //@   ensures result != nil
 //@   marks errIs(result, ErrNoDeployedReleases)
+
+//@ func NewMemory
+//@   props C10
+//@   ensures result != nil && fresh(result)
